@@ -33,7 +33,7 @@ import (
 
 // ---- alphabet ---------------------------------------------------------------------------------
 
-var domain = []uint32{1, 2, 3, 0xFFFFFFFF}
+var domain = []uint32{0, 1, 2, 3, 0xFFFFFFFF} // 2 and 3 only in the deep (thorough) alphabet for id-consuming operations
 
 const unknownID = 7
 const freshBase = 0x21
@@ -102,7 +102,7 @@ func setup() {
 
 	startOps = []op{{kind: opStart, name: "start:empty", tmpl: 0}, {kind: opStart, name: "start:parsed[1 EN* TINK,3 DESTROYED TINK]", tmpl: 1},
 		{kind: opStart, name: "start:parsed[0xFFFFFFFF DIS TINK,2 EN* RAW]", tmpl: 2}}
-	ansSets := [][]uint32{{1}, {2}, {3}, {0xFFFFFFFF}, {freshBase + 0x100}}
+	ansSets := [][]uint32{{0}, {1}, {2}, {3}, {0xFFFFFFFF}, {freshBase + 0x100}}
 	// two consecutive scripted answers: forces the redraw loop to iterate twice (thorough tier)
 	ansSets = append(ansSets, []uint32{1, 2}, []uint32{2, 1}, []uint32{1, 1}, []uint32{3, 0xFFFFFFFF})
 	for t := range templates {
@@ -114,20 +114,20 @@ func setup() {
 			if t == 2 && len(a) > 1 {
 				continue
 			}
-			normalOps = append(normalOps, op{kind: opAddTemplate, name: fmt.Sprintf("Add(%s) rnd=%x", templateNames[t], a), tmpl: t, answers: a, deep: len(a) > 1 || a[0] == 3 || t == 2 || (t == 5 && a[0] != 1 && a[0] < freshBase)})
+			normalOps = append(normalOps, op{kind: opAddTemplate, name: fmt.Sprintf("Add(%s) rnd=%x", templateNames[t], a), tmpl: t, answers: a, deep: len(a) > 1 || a[0] == 3 || a[0] == 2 || t == 2 || (t == 5 && a[0] != 1 && a[0] < freshBase)})
 		}
 	}
 	for pi, pn := range []string{"AES128GCM/TINK", "AES128GCM/RAW"} {
-		for _, a := range ansSets[:3] {
-			normalOps = append(normalOps, op{kind: opAddParams, name: fmt.Sprintf("AddNewKeyFromParameters(%s) rnd=%x", pn, a), tmpl: pi, answers: a, deep: a[0] == 3 || (pi == 1 && a[0] != 1)})
+		for _, a := range ansSets[:4] {
+			normalOps = append(normalOps, op{kind: opAddParams, name: fmt.Sprintf("AddNewKeyFromParameters(%s) rnd=%x", pn, a), tmpl: pi, answers: a, deep: a[0] == 3 || a[0] == 2 || (pi == 1 && a[0] != 1)})
 		}
 	}
 	normalOps = append(normalOps, op{kind: opAddKey, name: "AddKey(nil)", tmpl: -1})
 	for _, a := range ansSets {
-		normalOps = append(normalOps, op{kind: opAddKey, name: fmt.Sprintf("AddKey(raw key) rnd=%x", a), tmpl: 0, answers: a, deep: len(a) > 1 || a[0] == 3 || a[0] == 0xFFFFFFFF})
+		normalOps = append(normalOps, op{kind: opAddKey, name: fmt.Sprintf("AddKey(raw key) rnd=%x", a), tmpl: 0, answers: a, deep: len(a) > 1 || a[0] == 3 || a[0] == 2 || a[0] == 0xFFFFFFFF})
 	}
 	for _, d := range domain {
-		normalOps = append(normalOps, op{kind: opAddKey, name: fmt.Sprintf("AddKey(key requiring id %#x)", d), tmpl: 1, id: d, deep: d == 3})
+		normalOps = append(normalOps, op{kind: opAddKey, name: fmt.Sprintf("AddKey(key requiring id %#x)", d), tmpl: 1, id: d, deep: d == 3 || d == 2})
 	}
 	ids := append(append([]uint32{}, domain...), unknownID, freshBase)
 	for _, k := range []opKind{opSetPrimary, opEnable, opDisable, opDelete} {
